@@ -15,7 +15,7 @@ Definition check (prop : Z) (inp impl : sx) : sx :=
        | 3 | 4 | 5 | 6 => check_pol prop inp impl
        | 7 => check_drv prop inp impl
        | 8 | 9 | 10 | 11 | 12 | 22 | 23 | 24 | 25 => check_par prop inp impl
-       | 13 | 14 => check_iso prop inp impl
+       | 13 | 14 | 26 => check_iso prop inp impl
        | 18 => check_shared prop inp impl
        | 19 => check_hs_timed prop inp impl
        | 21 => check_req prop inp impl
